@@ -248,7 +248,7 @@ namespace
             behavior_configclasses_exit(confignav confignav) : m_out_arr(std::make_shared<d_array>()), m_confignav(confignav), m_iterator_current(confignav.begin()), m_current(*confignav.begin()) {}
             virtual result enact(sqf::runtime::runtime& runtime, sqf::runtime::frame& frame) override
             {
-                auto res = runtime.context_active().pop_value();
+                auto res = runtime.context_active().pop_value_or_nil(); // a finished scope always yields one value
                 if (res.has_value())
                 {
                     if (res->is<t_boolean>())
@@ -326,7 +326,7 @@ namespace
             behavior_configproperties_exit(confignav confignav) : m_out_arr(std::make_shared<d_array>()), m_confignav(confignav), m_iterator_current(confignav.begin()), m_current(*confignav.begin()) {}
             virtual result enact(sqf::runtime::runtime& runtime, sqf::runtime::frame& frame) override
             {
-                auto res = runtime.context_active().pop_value();
+                auto res = runtime.context_active().pop_value_or_nil(); // a finished scope always yields one value
                 if (res.has_value())
                 {
                     auto value = res->data_try<d_boolean, bool>();
